@@ -7,7 +7,7 @@ CLAIMED = {
              "normal and exceptional exits) is replayed on the real Terminal.map_fmmu for n=1..4 and the "
              "recorded run (slot, register writes, fmmu_used after every step) is validated by TLC as a "
              "behaviour of the spec. Exhaustive within the bound, which is the right level for a small "
-             "slot table whose bugs are index-arithmetic cases. Later widened: mappings of one terminal entered concurrently (one task each, the bus stub suspends at every register access), events in completion order. The logical address 0 is among the addresses used.",
+             "slot table whose bugs are index-arithmetic cases. Later widened: mappings of one terminal entered concurrently (one task each, the bus stub suspends at every register access), events in completion order. The logical address 0 is among the addresses used. Also two live mappings carrying the same logical address (FmmuAddr.tla tells mappings from addresses; with distinct addresses it refines Fmmu.tla).",
         note="Trusts TLC, the bus stub that records register writes, and that fmmu_used is the master's "
              "table. Scripts longer than the bound and more than 3 concurrent mappings are not explored.",
         technique="TLA+ spec Fmmu + TLC exhaustive model check; TLC-enumerated scripts replayed on real "
@@ -33,7 +33,7 @@ CLAIMED = {
              "Fixed-seed well-formed EEPROM images x TLC-enumerated interface scripts (read width, busy "
              "durations) run the real read_eeprom / parse_sync_managers / parse_pdos (EEPROM and SDO source) "
              "and EtherCat.eeprom_read over a simulated bus; TLC evaluates SiiImage.tla on each image and "
-             "judges every returned value; register-access traces are validated against Sii.tla. Later widened: boundary category types (0, 1, 0x00FF, 0x7FFF, 0x8000, 0xFFFE) with 0-2 words first, in the middle and last. Also long busy periods (99, 100, 101, 150, 1000 polls) at every position of a read pattern.",
+             "judges every returned value; register-access traces are validated against Sii.tla. Later widened: boundary category types (0, 1, 0x00FF, 0x7FFF, 0x8000, 0xFFFE) with 0-2 words first, in the middle and last. Also long busy periods (99, 100, 101, 150, 1000 polls) at every position of a read pattern. Also the boundary values of every single-byte count / length field (127, 128, 255 entries in one PDO; category lengths of 127-256 words).",
         note="Images are sampled, not exhaustive; ill-formed images are outside the precondition. Trusts "
              "simbus' SII model (its register behaviour is itself trace-validated) and a minimal expedited "
              "CoE upload server.",
@@ -61,7 +61,7 @@ CLAIMED = {
              "x 4 addresses. Real scan_serial_numbers and concurrent Terminal.initialize run on a simulated "
              "bus with narrowed address ranges so that collisions are forced, varied start orders and "
              "response delays; every write of the station-address register must be in range, never written "
-             "before and never an address at which a terminal answered; TLC validates each trace. Also pre-assigned addresses shared by several terminals (probes answered with working counter 2 or more).",
+             "before and never an address at which a terminal answered; TLC validates each trace. Also pre-assigned addresses shared by several terminals (probes answered with working counter 2 or more). Also whole-packet transport failures (sendto raising ENOBUFS / ENETDOWN, truncated replies) aimed at the probe of an occupied address.",
         note="Schedules are sampled (seeded), not exhaustive. 'Within the configured range' is read as "
              "lo <= a <= hi, the reading under which the property text is satisfiable by randint; the "
              "half-open reading used by the mailbox lock file is recorded in DESIGN.md as an observation "
@@ -76,7 +76,7 @@ CLAIMED = {
              "variables) run the real SyncGroup.start()/run() for 4-8 cycles on a virtual-time loop and a "
              "simulated bus with scripted inputs and returned working counters (correct, off by a few, 0, and "
              ">= 256 with matching or non-matching low byte); TLC validates every trace (frames, responses, "
-             "what devices saw and set, wkc_errors). Later widened: frames lost or answered late from the second cycle on (environment action Lose): what is resent carries the current outputs and cleared counters, and wkc_errors does not move.",
+             "what devices saw and set, wkc_errors). Later widened: frames lost or answered late from the second cycle on (environment action Lose): what is resent carries the current outputs and cleared counters, and wkc_errors does not move. Also the same group object started again after its task ended (SlowCycle.tla: Restart), and variables declared through PDO entries wider than the variable.",
         note="Expected counters are derived in the spec from the configuration, not read from the code. No "
              "lost, late or duplicated cyclic frames; cycle 1's error count is not judged.",
         technique="TLA+ spec SlowCycle + TLC exhaustive model; real SyncGroup.run on a simulated bus; TLC "
@@ -91,7 +91,7 @@ CLAIMED = {
              "the variable must have changed by exactly the sum of all amounts. All statement shapes: 4 memory "
              "kinds (array map, per-CPU map, local, raw memory through the map base) x formats i I q Q x x "
              "+= / -= x constant (small, negative, 2^31-1, 2^40+7) / register / expression amounts x initial "
-             "values incl. wrap-around. Exhaustive over schedules for each case. Also members of a looked-up Dict value (shared through the hash map).",
+             "values incl. wrap-around. Exhaustive over schedules for each case. Also members of a looked-up Dict value (shared through the hash map). Also raw memory reached through a register of the program's own choice (r2, r4, r6, r8, r9).",
         note="Ebpf.tla is a model of the ISA: cross-checked against the kernel on 1 800 runs of 600 random "
              "verifier-accepted programs plus targeted packet / hash-helper / tail-call cases, 0 mismatches "
              "(harness/fidelity.py). An atomic add is one machine step, as on hardware. Per-CPU maps are "
@@ -138,7 +138,7 @@ CLAIMED = {
              "varied start orders and delays; the mailbox headers seen by the terminal are validated by TLC. "
              "Cross-process: TLC enumerates system-call schedules for two participants including the creation "
              "window; each is replayed on the real LockFile / ParallelMailboxLock in two OS processes with "
-             "gated os/fcntl calls, and TLC validates lock outcomes, file bytes and counters. Later widened: lock holds that end by exception or cancellation (TLC chooses per hold), aborting exchanges end to end on the cross-process lock, and tasks of one process sharing one cross-process lock. Also a process using the mailboxes of several terminals at once (users of one process share the record locks).",
+             "gated os/fcntl calls, and TLC validates lock outcomes, file bytes and counters. Later widened: lock holds that end by exception or cancellation (TLC chooses per hold), aborting exchanges end to end on the cross-process lock, and tasks of one process sharing one cross-process lock. Also a process using the mailboxes of several terminals at once (users of one process share the record locks). Also cancellation of a user while it waits for the lock (every cancellation point near the start of the wait and around the hand-over), with users queued behind and arriving later.",
         note="Interleaving at system-call granularity; two participants replayed (three in the model); POSIX "
              "record-lock semantics are those of the sandbox kernel. Unrelated mail is kept out of these "
              "scripts (it belongs to C16).",
@@ -156,7 +156,7 @@ CLAIMED = {
              "and EtherCat over a simulated bus for mailbox sizes 32..256, value lengths 0..3 mailboxes, "
              "subindex and complete access, with TLC-generated scripts of delays, unrelated mail, short "
              "fragments and aborts; every mailbox message both ways, the call's outcome and the server's final "
-             "value are validated by TLC. The simulated server's own messages are validated by the same spec. Later widened: seven addresses (subindex 0, 1, 2, 5, 254, 255; indices 0x0001..0xFFFF) against every transfer kind, with neighbouring entries in the simulated terminal so that a misaddressed transfer lands somewhere.",
+             "value are validated by TLC. The simulated server's own messages are validated by the same spec. Later widened: seven addresses (subindex 0, 1, 2, 5, 254, 255; indices 0x0001..0xFFFF) against every transfer kind, with neighbouring entries in the simulated terminal so that a misaddressed transfer lands somewhere. Also 2-3 tasks transferring on one terminal at once (all 81 ordered pairs of nine transfer kinds, reply delays of 0-5 polls), each transfer validated on its own.",
         note="Complete access and subindex access are modelled as independent objects; the outcome after a server "
              "abort is unconstrained. The server model follows the standard as read, not a physical device.",
         technique="TLA+ specs Sdo || CoE, TLC exhaustive design check; TLC-enumerated reply scripts; real "
@@ -187,7 +187,7 @@ CLAIMED = {
              "values, an optional trailing read-only format, raw data in {absent, count 0, count 3, b'', 1-3 "
              "bytes}, plus random requests; each is made through the real EtherCat.roundtrip with a queue "
              "consumer returning a position-dependent response; TLC validates the payload sent and the tuple "
-             "returned (or the exception). Later widened: struct's whole '<' alphabet (signed and 64-bit integers, e / f / d floats incl. infinities and NaN on decoding, bools, chars, s / p strings), the spec encodes each.",
+             "returned (or the exception). Later widened: struct's whole '<' alphabet (signed and 64-bit integers, e / f / d floats incl. infinities and NaN on decoding, bools, chars, s / p strings), the spec encodes each. Later widened: 1-3 (thorough 4) concurrent calls through the REAL send loop and process_packet sharing frames, per call working counter 0 / 1, cancelled in flight or not, overflow into a second frame (CodecFrames.tla enumerates the environments).",
         note="Unsigned integer, pad and byte-string fields only; without any format the raw bytes may come back "
              "bare rather than as a 1-tuple.",
         technique="TLA+ spec Codec; TLC-enumerated requests replayed on real code; TLC trace validation",
@@ -221,7 +221,7 @@ CLAIMED = {
              "rotating destinations incl. registers and locals; fixed-seed random trees of depth 2-3), the "
              "emitted bytecode is executed by TLC on the eBPF machine from several input vectors (small, "
              "negative, boundary, random), and the destination's final bytes must be an admissible value "
-             "reduced to the destination whenever the precondition holds. Later widened: hash-map variables as operands and destinations, every fourth statement inside a temporary's block, every second register destination also an operand, and the `register + constant` class under every operator. Also: the destination register inside the right operand, plainly, under unary minus / abs and in deeper subtrees.",
+             "reduced to the destination whenever the precondition holds. Later widened: hash-map variables as operands and destinations, every fourth statement inside a temporary's block, every second register destination also an operand, and the `register + constant` class under every operator. Also: the destination register inside the right operand, plainly, under unary minus / abs and in deeper subtrees. Also array-map and local variables declared with a byte order (\">h\", \"<Q\", \"!q\") as operands and as destinations (Codegen.tla reads and judges their bytes in the declared order).",
         note="Bounded depth and sampled inputs, not all programs. The precondition is read conservatively: a "
              "case outside it is skipped, never judged (about 17% of runs). Two recorded known findings "
              "(signed // % emitted unsigned; sw register not sign-extended for an 8-byte destination) are "
@@ -245,7 +245,7 @@ CLAIMED = {
              "specification is given their exact scaled integers; fixed-point inputs are assigned from Python through "
              "the real descriptor and the specification checks the stored bytes are the exact scaled integer. TLC "
              "executes the emitted bytecode on the eBPF machine and judges the destination bytes / the markers; the "
-             "result is read back through the real Python descriptor and must be the float nearest to raw/100000. Later widened: hash-map variable operands (incl. fixed-point ones), statements inside a temporary's block, plain assignments of every constant (conversion only), values beyond 32 bits in every vector; the precondition scales each operand only as far as its own operation needs.",
+             "result is read back through the real Python descriptor and must be the float nearest to raw/100000. Later widened: hash-map variable operands (incl. fixed-point ones), statements inside a temporary's block, plain assignments of every constant (conversion only), values beyond 32 bits in every vector; the precondition scales each operand only as far as its own operation needs. Also integer destinations declared with a byte order and / or narrower than 8 bytes (the precondition then follows the destination's width).",
         note="Depth-1 statements and sampled input values (boundary and fixed-seed), 8-byte operands only. Outside "
              "the precondition a case is skipped, never judged. One recorded known finding (F1: division emitted "
              "unsigned) is matched by a flag the spec computes by stepping the case's own bytecode: a DIV or MOD "
@@ -266,7 +266,7 @@ CLAIMED = {
              "12 condition shapes x 5 block shapes from fixed seeds; TLC executes the emitted bytecode on the "
              "eBPF machine from input vectors drawn around each program's constants (incl. equal operands and "
              "positive-versus-minus-one), and the markers found set must equal Exec. 58% of judged programs "
-             "were observed on two or more different paths in the quick tier. Later widened: hash-map variable operands, programs inside a temporary's block, and conditions over fixed-point and mixed operands (C02's comparison statements, judged by Fixed.tla).",
+             "were observed on two or more different paths in the quick tier. Later widened: hash-map variable operands, programs inside a temporary's block, and conditions over fixed-point and mixed operands (C02's comparison statements, judged by Fixed.tla). Also expressions over narrow unsigned operands whose exact value may be negative (`H - H`, `I - 1`, `b * B`) on either side against signed and 8-byte operands.",
         note="Bounded depth and sampled inputs. A condition outside the precondition on the executed path makes the "
              "case skipped. One recorded known finding (the sw register view compared without sign extension "
              "against a 64-bit operand) is matched by a predicate the spec evaluates; a program that has it AND "
@@ -325,7 +325,7 @@ CLAIMED = {
              "end of the second cycle (thorough: and a second cancel at every later iteration); the fast kind "
              "uses a real kernel program table with the group program really loaded; the real "
              "ProcessSyncGroup.start() spawns its child and is cancelled before its first step, while booting, "
-             "while cycling and at an exit race. TLC validates every recorded run. Cancelled after every event-loop iteration up to the end of cycle 2, x every later iteration for a second cancel, x every iteration later still for a third (three-writer configurations; thorough: all gating configurations). Also one terminal in turn going silent at the first cancel (a silent writer ending the task with a bus error is counted, not judged).",
+             "while cycling and at an exit race. TLC validates every recorded run. Cancelled after every event-loop iteration up to the end of cycle 2, x every later iteration for a second cancel, x every iteration later still for a third (three-writer configurations; thorough: all gating configurations). Also one terminal in turn going silent at the first cancel (a silent writer ending the task with a bus error is counted, not judged). Also groups without any written terminal (pure monitoring groups) in every kind, layouts enumerated by the number of written terminals.",
         note="Exhaustive over cancellation iterations for the listed configurations, not over configurations. The "
              "child runs a stand-in ParallelEtherCat.run (no NIC). The harness translates lookup_elem's KeyError "
              "into the OSError register_sync_group waits for (see DESIGN.md 10, observation). The FMMU "
@@ -469,7 +469,7 @@ CLAIMED = {
              "type(), positions and map size read from the real objects and judged by TLC. Histories of Python "
              "writes, real emitted programs and Python reads run on the real kernel map (every program run "
              "repeated on the eBPF machine and compared) and in lock-step on the machine alone; TLC validates "
-             "every history. Later widened: byte-order-prefixed formats and in-place `+=` / `-=` on every format.",
+             "every history. Later widened: byte-order-prefixed formats and in-place `+=` / `-=` on every format. Later widened: composite formats (several letters, pad bytes, packed with a byte order or natively aligned) whose size is not a multiple of their alignment; Layout.tla computes sizes by struct's rules itself.",
         note="Declaration sets bounded as stated; histories sampled with fixed seeds. Conversions between fixed-point "
              "and integer variables belong to C01 / C02.",
         technique="TLA+ specs Layout + Store; TLC-enumerated declaration sets on the real classes; real programs on "
@@ -484,7 +484,7 @@ CLAIMED = {
              "update / delete / pop / iteration sequences from both sides: program-side operations are real "
              "emitted programs (update(), lookup() with Else, member access through the looked-up pointer, "
              "variable get / set) run on the kernel and on the eBPF machine, Python-side operations the real "
-             "classes on the real kernel map (or a fake kernel); TLC validates the merged history. Later widened: update flags by NAME on both sides (insert-only / modify-only judged by meaning), decimals whose float product falls below the integer in every fixed-point value pool.",
+             "classes on the real kernel map (or a fake kernel); TLC validates the merged history. Later widened: update flags by NAME on both sides (insert-only / modify-only judged by meaning), decimals whose float product falls below the integer in every fixed-point value pool. Also array-map variables and locals of any width and byte order assigned directly to hash variables.",
         note="LRU Dicts are not compared (contents unspecified after updates). Out-of-range writes and concurrent "
              "writers are not covered.",
         technique="TLA+ spec Store (hash part) + Layout; real programs on kernel and eBPF machine; TLC trace validation",
@@ -498,7 +498,7 @@ CLAIMED = {
              "library's single syscall wrapper is recorded with the measured lengths of the Python buffers behind "
              "it while the whole user-space API is driven (array maps, per-CPU read(), hash variables of every "
              "format, Dict set / get / pop / del / iteration) on fixed-seed randomly declared maps, on this host and "
-             "on simulated hosts with more possible than online CPUs; TLC validates the event list. Later widened: a per-CPU map extended in a subclass with instances of both classes; simulated hosts answer every source of a CPU count consistently (possible >= online >= process affinity), and the real host pinned to one CPU. Also byte-order-prefixed formats in half of the declarations.",
+             "on simulated hosts with more possible than online CPUs; TLC validates the event list. Later widened: a per-CPU map extended in a subclass with instances of both classes; simulated hosts answer every source of a CPU count consistently (possible >= online >= process affinity), and the real host pinned to one CPU. Also byte-order-prefixed formats in half of the declarations. Also hosts whose possible-CPU list has several ranges (0-3,8-11; 0,2-3): the spec counts the CPUs from the range list.",
         note="Trusts the fake kernel's transfer sizes (taken from kernel/bpf/syscall.c) and the frame walk that finds "
              "the buffers. mmap-ed array maps carry no obligation.",
         technique="TLA+ spec BpfCalls + TLC exhaustive model check; TLC trace validation of recorded bpf() events",
